@@ -59,7 +59,8 @@ class C05(object):
                          'rebuilt_with_names_kept_from_before_first_build',
                          'equation_object_shared_by_sectors.declared',
                          'term_built_products_and_quotients_of_locals.declared',
-                         'other_models_created_during_construction')
+                         'other_models_created_during_construction',
+                         'sector_codes_ending_in_another_sectors_identifier.declared')
 
     def n_cases(self, tier):
         return 32 if tier == 'quick' else 1200
@@ -123,6 +124,21 @@ class C05(object):
                 late.AddVariable('Y', 'uses a local name', 'X + 1.0')
                 sectors.append(((ck0, 'LATE'), late))
                 rec.count('late_sector.declared')
+            if case.get('idx', 0) % 4 == 3:
+                # sector codes that end in '_<number>' where the number is the identifier of ANOTHER sector of the model (household
+                # groups HH_1 .. HH_3 in a fresh interpreter are the everyday version): 'GRP_17__F' is a canonical name, not a
+                # temporary one with something in front of it
+                from sfc_models.sector import Sector as _S3
+                ck0, country0 = sorted(b.countries.items())[0]
+                for (tk_, tsec_) in sectors[:2]:
+                    code_ = 'GRP_%d' % tsec_.ID
+                    if any(s_.Code == code_ for _, s_ in sectors):
+                        continue
+                    g_ = _S3(country0, code_, 'a group whose code ends in the identifier of another sector', has_F=True)
+                    g_.AddVariable('SAVE_L', 'a share of its own assets', '0.25*F + 0.5*LAG_F')
+                    g_.AddCashFlow('+TRANSFER_L', '1.5', 'a transfer received')
+                    sectors.append(((ck0, code_), g_))
+                rec.count('sector_codes_ending_in_another_sectors_identifier.declared')
             if case.get('idx', 0) % 4 == 2:
                 # equations built term by term from PRODUCTS and QUOTIENTS of local names (Equation / Term objects, AddTerm)
                 from sfc_models.equation import Equation as _Eq2
